@@ -286,7 +286,18 @@ def monitorOp (mu : Mon) (prev : Args) (toks : List String) (implOk : Bool) (out
           if w == optNatStr (AMap.get? members addr) then none
           else some (mk "C09" "C09/raw-member" s!"addr={addr} raw={w} smart={optNatStr (AMap.get? members addr)}")
         | _ => some (mk "C09" "C09/raw-member" s!"unparsable={e}"))
-    let f9 := fa ++ fm ++ ft ++ fr
+    -- (d) the membership after an accepted UpdateMembers is the one the message documents: the adds in order
+    --     (set weight), then the removes ("remove is applied after add, so if an address is in both, it is removed")
+    let fe := if fresh || kind != "update_members" || !implOk then [] else
+      let pM := obsMembers prev
+      let afterAdd := (a.list "add").foldl (fun (acc : AMap String Nat) e =>
+        let p := parsePair e; acc.set (parseAddr p.1).2 p.2) pM
+      let want := (a.list "remove").foldl (fun (acc : AMap String Nat) e => acc.erase (parseAddr e).2) afterAdd
+      let keys := (pM.map (·.1) ++ members.map (·.1) ++ want.map (·.1)).eraseDups
+      keys.filterMap fun k =>
+        if AMap.get? want k == AMap.get? members k then none
+        else some (mk "C09" "C09/update-members-effect" s!"addr={k} documented={optNatStr (AMap.get? want k)} listed={optNatStr (AMap.get? members k)}")
+    let f9 := fa ++ fm ++ ft ++ fr ++ fe
     -- ---------- C14
     let f14 := if fresh || kind == "inst" then [] else
       let pAdmin := prev.str "admin"
